@@ -239,7 +239,7 @@ macro_rules! hm {
 hm!(c01_q_btmap_m1, p_map_c01::<BTreeMap<KeyT, u8>>(1, true));
 hm!(c01_t_btmap_m2, p_map_c01::<BTreeMap<KeyT, u8>>(2, true));
 hm!(c01_t_btmap_m3, p_map_c01::<BTreeMap<KeyT, u8>>(3, true));
-hm!(c12_q_btmap_dup_m2, p_map_c01::<BTreeMap<KeyT, u8>>(2, false));
+hm!(c12_t_btmap_dup_m2, p_map_c01::<BTreeMap<KeyT, u8>>(2, false));
 hm!(c06_q_btmap_m1, p_map_c02::<BTreeMap<KeyT, u8>>(1));
 hm!(c06_t_btmap_m2, p_map_c02::<BTreeMap<KeyT, u8>>(2));
 hm!(c06_t_btmap_m3, p_map_c02::<BTreeMap<KeyT, u8>>(3));
